@@ -87,6 +87,8 @@ type pathState struct {
 	monitorOn  bool
 	cached     map[*value]bool
 	cachedMaps map[*omap]bool
+	panicLoc   string
+	panicNoted bool
 	dom        map[*smt.Term]*byteDom
 	entangled  map[*smt.Term]bool
 }
@@ -776,7 +778,7 @@ func (i *interpreter) RunPath(fn *ssa.Function, prefix []int64, wantWitness bool
 				res.Msg = r.msg
 			case targetPanic:
 				res.Status = "panic"
-				res.Msg = i.panicString(r)
+				res.Msg = i.panicString(r) + " [raised in " + p.panicLoc + "]"
 				_, m := i.modelOf(nil)
 				i.recordViolation("no-uncaught-panic", "panic", res.Msg, "", m)
 			default:
